@@ -14,7 +14,7 @@ import (
 	"github.com/cosi-project/runtime/zzverif/verif"
 )
 
-var e2eIDs = []string{"a", "b"}
+var e2eIDs = []string{"a", ""} // the empty string is an ordinary resource id
 
 type rv struct {
 	version uint64
@@ -57,14 +57,17 @@ func H_RemoteWatchE2E() {
 	backend := namespaced.NewState(inmem.Build)
 	direct := state.WrapCore(backend)
 	var copts []client.AdapterOption
-	noRetry := verif.Choose("retriesDisabled", 2) == 1
+	// the watch is optionally started from a bookmark the caller obtained earlier; that variant uses the
+	// empty pre-state and retries enabled
+	fromBookmark := verif.Choose("fromBookmark", 2) == 1
+	noRetry := !fromBookmark && verif.Choose("retriesDisabled", 2) == 1
 	if noRetry {
 		copts = append(copts, client.WithDisableWatchRetry())
 	}
 	remoteCore, tr := c11.NewRemoteWithWatch(backend, copts...)
 	remote := state.WrapCore(remoteCore)
 	for _, id := range e2eIDs {
-		if verif.Choose("pre", 2) == 1 {
+		if !fromBookmark && verif.Choose("pre", 2) == 1 {
 			verif.Assert(direct.Create(ctx, tres.NewA(tres.NS, id, "v")) == nil, "pre-state")
 		}
 	}
@@ -80,20 +83,45 @@ func H_RemoteWatchE2E() {
 	}
 	watched := func(string) bool { return true }
 	replica := map[string]rv{}
-	initial := snapshot()
 	mode := verif.Choose("mode", 3)
-	bootstrap := mode != 0 && verif.Choose("bootstrap", 2) == 1
+	bootstrap := mode != 0 && !fromBookmark && verif.Choose("bootstrap", 2) == 1
+	var bookmark []byte
+	if fromBookmark {
+		dch := make(chan state.Event, 16)
+		verif.Assert(direct.WatchKind(ctx, kind, dch) == nil, "direct watch")
+		pa := resource.NewMetadata(tres.NS, tres.TypeA, "a", resource.VersionUndefined)
+		if r, err := direct.Get(ctx, pa); err == nil {
+			r.(*tres.A).TypedSpec().N++
+			verif.Assert(direct.Update(ctx, r) == nil, "bookmarked write")
+		} else {
+			verif.Assert(direct.Create(ctx, tres.NewA(tres.NS, "a", "v")) == nil, "bookmarked write")
+		}
+		bookmark = (<-dch).Bookmark
+		verif.Assert(bookmark != nil, "events carry bookmarks")
+		verif.Cover("started from a bookmark")
+	}
+	initial := snapshot() // what the subscriber knows: the state right after the bookmarked event
+	if bookmark != nil && verif.Choose("writeBeforeResume", 2) == 1 {
+		e2eWrite(ctx, direct) // happens after the bookmark and before the watch: must be delivered
+	}
 	single := make(chan state.Event)
 	batches := make(chan []state.Event)
 	switch mode {
 	case 0:
 		wid := e2eIDs[verif.Choose("watchedID", 2)]
 		watched = func(id string) bool { return id == wid }
-		verif.Assert(remote.Watch(ctx, resource.NewMetadata(tres.NS, tres.TypeA, wid, resource.VersionUndefined), single) == nil, "remote watch established")
+		var wopts []state.WatchOption
+		if bookmark != nil {
+			wopts = append(wopts, state.WithStartFromBookmark(bookmark))
+		}
+		verif.Assert(remote.Watch(ctx, resource.NewMetadata(tres.NS, tres.TypeA, wid, resource.VersionUndefined), single, wopts...) == nil, "remote watch established")
 	case 1, 2:
 		var opts []state.WatchKindOption
 		if bootstrap {
 			opts = append(opts, state.WithBootstrapContents(true))
+		}
+		if bookmark != nil {
+			opts = append(opts, state.WithKindStartFromBookmark(bookmark))
 		}
 		if mode == 1 {
 			verif.Assert(remote.WatchKind(ctx, kind, single, opts...) == nil, "remote watch established")
@@ -153,6 +181,15 @@ func H_RemoteWatchE2E() {
 	}
 	if mode != 0 && !bootstrap {
 		replica = initial
+	}
+	if mode == 0 && bookmark != nil {
+		// resumed from a bookmark: no initial-state event, the subscriber continues from what it knew
+		initialSeen = 1
+		for id, v := range initial {
+			if watched(id) {
+				replica[id] = v
+			}
+		}
 	}
 	drain := func() {
 		for !errored {
